@@ -146,6 +146,10 @@ def run(ctx):
     rd = lambda f: open(os.path.join(stage, f)).read()
     b = vlib.build(DRIVER)
 
+    rc, out = vlib.sh([b, 'memdb-probe', '--prop', ctx.prop, '--seed', str(ctx.seed)], timeout=600)
+    m = re.search(r'\{"result":"(.*)"\}', out)
+    ctx.extra['memdb_probe'] = m.group(1) if m else 'probe died rc=%d: %s' % (rc, out[-300:])
+
     # ---- 1. reference model: sanity invariants + the property as action property
     ctx.tlc_mc('Prune_MC', 'Prune_MC.cfg', workers=4, timeout=3600, stage=stage)
     if not q:
@@ -200,6 +204,17 @@ def run(ctx):
         bs = ctx.tlc_sim('Prune_MC', 'Prune_Gen_small.cfg', num=n, depth=13, stage=stage, seed=ctx.seed * 10 + 7, timeout=3600)
         preplay(ctx, b, bs, dict(view='ref', db='leveldb', ph=2, api='set', salt=1), procs=4, label='gen-small')
 
+    # binding self-test: one predicted read flipped must make the replayer disagree
+    bad = json.loads(json.dumps(bs[0]))
+    for st in bad['steps']:
+        if st.get('chk'):
+            st['chk'][0]['vals'][0] = (st['chk'][0]['vals'][0] + 1) % 3
+            break
+    s = preplay(ctx, b, [bad], dict(view='ref', db='leveldb', ph=2, api='set', salt=1 if not q else 0), procs=1, label='selftest', count=False, verdict=False)
+    if not s['mismatches']:
+        raise vlib.Broken('binding self-test failed: a corrupted prediction was not detected by the replay')
+    ctx.extra['selftest_corrupted_behaviour_detected'] = True
+
     # ---- 5. mechanism model fidelity: its predicted read table (incl. missing records) and database
     # ---- shape (node / first-level / second-level index record counts) against the real store
     mg = rd('PruneMech_Gen.cfg')
@@ -208,7 +223,7 @@ def run(ctx):
     for i, (ph, hs) in enumerate([(2, 'MCHeightsBands'), (2, 'MCHeightsSmall12')] + ([] if q else [(1, 'MCHeightsBands'), (3, 'MCHeightsBands')])):
         name = 'PruneMech_Gen_%d.cfg' % i
         ctx.write_cfg(stage, name, _cfg(mg, PruneH=ph, Heights=hs, MaxWrites=1 if q else 2))
-        bs = ctx.tlc_sim('PruneMech_MC', name, num=(30 if q else 400), depth=10, stage=stage, seed=ctx.seed * 10 + i, timeout=7200)
+        bs = ctx.tlc_sim('PruneMech_MC', name, num=(30 if q else 150), depth=10, stage=stage, seed=ctx.seed * 10 + i, timeout=7200)
         preplay(ctx, b, bs, dict(view='ref', db='leveldb', ph=ph, api='set'), procs=4, label='mech-gen')
         s = preplay(ctx, b, mech_view(bs), dict(view='mech', db='leveldb', ph=ph, api='set'), procs=4, label='mech-fidelity', count=False, verdict=False)
         dis += len(s['mismatches'])
